@@ -259,6 +259,25 @@ pub(crate) enum SpanInfo {
     Vec(Span, Vec<SpanInfo>),
 }
 
+// The metadata of a list nests one box per list element; unlink the chain in
+// a loop, so that dropping the datum of a long list does not recurse once per
+// element.
+impl Drop for SpanInfo {
+    fn drop(&mut self) {
+        let take_rest = |info: &mut SpanInfo| match info {
+            SpanInfo::Cons(_, meta) => Some(std::mem::replace(
+                &mut meta[1],
+                SpanInfo::Prim(Span::empty()),
+            )),
+            _ => None,
+        };
+        let mut rest = take_rest(self);
+        while let Some(mut info) = rest {
+            rest = take_rest(&mut info);
+        }
+    }
+}
+
 impl SpanInfo {
     fn span(&self) -> Span {
         match self {
